@@ -297,3 +297,10 @@ package catalog
 //@ func NewExchangeRegexSchema
 //@   attr trusted
 //@   modifies nothing
+
+// ---------------------------------------------------------------------------
+// Repeatability (C16). The regex example generator of the dependency is seeded once per schema and advanced by every
+// call (read in jsight-schema-core/notations/regex: generatorOnce + Generate), so it may be called only inside a
+// sync.Once cache fill. JSchema.Example builds a new example from the AST on every call (assumed repeatable).
+//@ extern (*github.com/jsightapi/jsight-schema-core/notations/regex.RSchema).Example(s)
+//@   attr stateful
